@@ -30,6 +30,10 @@ func main() {
 	if err != nil {
 		panic(err)
 	}
+	if len(os.Args) > 1 && os.Args[1] == "history" {
+		runHistories(scratch, errf) // history.go
+		return
+	}
 	var env container.Environment
 	defer func() {
 		if env != nil {
